@@ -70,7 +70,9 @@ package tx
 //@   loop 3 invariant kept: (forall k string :: len(txGraph[k]) >= 0) && (forall a string, b string :: old(hasEdge(txGraph, a, b)) ==> hasEdge(txGraph, a, b))
 //@   loop 3 invariant readers_of_visited: overwriter != nil && owSound(txMap, overwriter) && (forall w string :: in(txMap, w) ==> owComplete(txMap, overwriter, w, len(txMap[w].TxInputsExt))) && (oneOverwriter(txMap) ==> (forall r string :: in($visited, r) ==> readerEdges(txMap, txGraph, 0, r, len(txMap[r].TxInputsExt))))
 //@   loop 4 invariant kept: (forall k string :: len(txGraph[k]) >= 0) && (forall a string, b string :: old(hasEdge(txGraph, a, b)) ==> hasEdge(txGraph, a, b))
-//@   loop 4 invariant readers_so_far: overwriter != nil && in(txMap, txID) && txMap[txID] == tx && owSound(txMap, overwriter) && (forall w string :: in(txMap, w) ==> owComplete(txMap, overwriter, w, len(txMap[w].TxInputsExt))) && (oneOverwriter(txMap) ==> readerEdges(txMap, txGraph, 0, txID, $i) && (forall r string :: in($visited#3, r) && r != txID ==> readerEdges(txMap, txGraph, 0, r, len(txMap[r].TxInputsExt))))
+//@   loop 4 invariant table_fixed: overwriter != nil && in(txMap, txID) && txMap[txID] == tx && owSound(txMap, overwriter) && (forall w string :: in(txMap, w) ==> owComplete(txMap, overwriter, w, len(txMap[w].TxInputsExt)))
+//@   loop 4 invariant readers_so_far: oneOverwriter(txMap) ==> readerEdges(txMap, txGraph, 0, txID, $i)
+//@   loop 4 invariant readers_of_visited_kept: oneOverwriter(txMap) ==> (forall r string :: in($visited#3, r) && r != txID ==> readerEdges(txMap, txGraph, 0, r, len(txMap[r].TxInputsExt)))
 
 // lastTxMap / lastOrder: results of the latest SortUnconfirmedTx / TopSortDFS call.
 //@ ghost var lastTxMap Int
